@@ -57,6 +57,14 @@ GLUE = """
 // gen_lsp_types::{Position, Range}: two public u32 fields / two public Position fields (ASSUMED shape)
 pub struct Position { pub line: u32, pub character: u32 }
 pub struct Range { pub start: Position, pub end: Position }
+impl Clone for Position {
+    fn clone(&self) -> (r: Self) ensures r == *self { Position { line: self.line, character: self.character } }
+}
+impl Clone for Range {
+    fn clone(&self) -> (r: Self) ensures r == *self { Range { start: self.start.clone(), end: self.end.clone() } }
+}
+/// document order of LSP positions
+pub open spec fn pos_le(a: Position, b: Position) -> bool { a.line < b.line || (a.line == b.line && a.character <= b.character) }
 
 #[verifier::external_body]
 pub fn vt_is_empty(s: &str) -> (r: bool) ensures r == (s@.len() == 0) { s.is_empty() }
@@ -312,6 +320,18 @@ def build(tier):
                   "r.end.line == line_ix(src@, src@.len() as int) as u32 && r.end.character == off_to_character(src@, src@.len() as int) as u32")],
         body_prelude="proof { lemma_lines_count(src@); }",
         props=c29, safety_props={"C28", "C29"}))
+    # the requested range of a code action: put in order, then compared with each fix's range
+    c28 = {"C28", "C29"}
+    u.add_fn(LSP, "normalized_range", contract=Contract(
+        ensures=[("start_is_not_after_end", "pos_le(r.start, r.end)"),
+                 ("the_same_two_positions", "(r.start == range.start && r.end == range.end) || (r.start == range.end && r.end == range.start)"),
+                 ("a_range_in_order_is_kept", "pos_le(range.start, range.end) ==> r == *range")],
+        props=c28, safety_props=c28))
+    u.add_fn(LSP, "ranges_overlap", contract=Contract(
+        requires=[("both_in_order", "pos_le(a.start, a.end), pos_le(b.start, b.end)")],
+        ensures=[("overlap_is_sharing_a_position", "r == (pos_le(a.start, b.end) && pos_le(b.start, a.end))"),
+                 ("symmetric", "r == (pos_le(b.start, a.end) && pos_le(a.start, b.end))")],
+        props=c28, safety_props=c28))
     u.add_canary_proof()
     u.raw(common.FOOTER)
     return u
